@@ -26,7 +26,8 @@ func init() {
 			}
 			return 60000
 		}}},
-		Run: run,
+		Run:   run,
+		Setup: func(c *core.Ctx) { c.State = &aliasState{} },
 		Floors: func(t string) map[string]int64 {
 			return map[string]int64{"numeral.exponent": 1000, "numeral.17digits": 1000, "unsupported.rejected": 100, "members>1": 1000,
 				"type.Point": 100, "type.LineString": 100, "type.MultiLineString": 100, "type.Polygon": 100, "type.MultiPolygon": 100}
@@ -70,6 +71,12 @@ func run(c *core.Ctx, idx int) {
 	if err != nil {
 		c.Violate("encode-error:"+name, fmt.Sprintf("wkt.Encode(%s) error: %v", name, err), detail)
 		return
+	}
+	if st, ok := c.State.(*aliasState); ok {
+		if st.prev != nil && string(st.prev) != st.prevCopy {
+			c.Violate("encode-output-mutated", "the bytes returned by an earlier wkt.Encode call changed after a later call", map[string]interface{}{"earlier_text": st.prevCopy, "now": string(st.prev)})
+		}
+		st.prev, st.prevCopy = txt, string(txt)
 	}
 	s := string(txt)
 	detail["text"] = core.Trunc(s, 2000)
@@ -142,4 +149,9 @@ func has17(s string) bool {
 		}
 	}
 	return false
+}
+
+type aliasState struct {
+	prev     []byte
+	prevCopy string
 }
